@@ -142,7 +142,7 @@ def has_const_cond(src):
 
 
 STATIC_FINDINGS = [
-    ("KF-const-cond-dead-arm", "sorts", r"identifier \w+ does not hold a pure", has_const_cond),
+    ("KF-const-cond-dead-arm", "sorts", r"identifier \w+ does not hold a pure|local \w+ is read but no path ever sets it", has_const_cond),
     ("KF-const-cond-dead-arm", "wellformed", r"identifier '\w+' is not declared before use", has_const_cond),
     ("KF-const-cond-dead-arm", "linearity", r"is initialised but never used \(leak\)|is consumed 2 times without DUP", has_const_cond),
 ]
